@@ -10,6 +10,9 @@ import RbV.Model.PairwiseFillI32
 import RbV.Lemmas.FillI32
 import RbV.Thm.GenLimits
 import RbV.Thm.GenTbCodes
+import RbV.Thm.GenSrcPwTypes
+import RbV.Thm.GenSrcPwModes
+import RbV.Thm.GenSrcPwCustom
 /-!
 # C01 — pairwise alignment is optimal and its reported path achieves the reported score
 
@@ -467,5 +470,240 @@ example : Optimal scU clLocal [0, 1] [1, 0] 1 := by
   have := opt_is_optimal scU clLocal [0, 1] [1, 0]
   have h : opt scU clLocal [0, 1] [1, 0] = 1 := by decide +kernel
   rwa [h] at this
+
+/-! ## Translated source text (builder genalign; `tools/rs2lean_genalign.py`, docs/notes/GEN.md "Dialect align")
+
+`RbV/Gen/SrcPwTypes.lean`, `SrcPwModes.lean`, `SrcPwCustom.lean` are the *text* of `pairwise/mod.rs` translated to Lean on every
+`./check C01`; the theorems below are about that text. -/
+
+section SourceText
+open RbV.Rs
+
+/-- **`TracebackCell` (translated text) = `Model/TbCell.lean`**: for every cell content, every admissible value
+(`≤ TB_MAX`, what the `assert!` of `set_bits` lets through) and every field position `≤ 12`: `set_bits`, `get_bits`, the
+six field accessors and `set_all` compute the model's functions and never panic. -/
+theorem traceback_cell_source_eq_model (c : RbV.Gen.SrcPwTypes.TracebackCell) (pos value : Nat) (hp : pos < 13)
+    (hv : value ≤ RbV.Gen.TbCodes.tbMax) :
+    RbV.Gen.SrcPwTypes.setBits c pos value = .ok ⟨RbV.TbCell.setBits c.v pos value⟩ ∧
+    RbV.Gen.SrcPwTypes.getBits c pos = .ok (RbV.TbCell.getBits c.v pos) ∧
+    RbV.Gen.SrcPwTypes.setIBits c value = .ok ⟨RbV.TbCell.setBits c.v RbV.Gen.TbCodes.iPos value⟩ ∧
+    RbV.Gen.SrcPwTypes.setDBits c value = .ok ⟨RbV.TbCell.setBits c.v RbV.Gen.TbCodes.dPos value⟩ ∧
+    RbV.Gen.SrcPwTypes.setSBits c value = .ok ⟨RbV.TbCell.setBits c.v RbV.Gen.TbCodes.sPos value⟩ ∧
+    RbV.Gen.SrcPwTypes.getIBits c = .ok (RbV.TbCell.getBits c.v RbV.Gen.TbCodes.iPos) ∧
+    RbV.Gen.SrcPwTypes.getDBits c = .ok (RbV.TbCell.getBits c.v RbV.Gen.TbCodes.dPos) ∧
+    RbV.Gen.SrcPwTypes.getSBits c = .ok (RbV.TbCell.getBits c.v RbV.Gen.TbCodes.sPos) ∧
+    RbV.Gen.SrcPwTypes.setAll c value = .ok ⟨RbV.TbCell.setAll c.v value⟩ ∧
+    RbV.Gen.SrcPwTypes.cellNew = .ok ⟨0⟩ :=
+  ⟨GenSrcPwTypes.setBits_eq_model c pos value hp hv, GenSrcPwTypes.getBits_eq_model c pos (by omega),
+   GenSrcPwTypes.setIBits_eq_model c value hv, GenSrcPwTypes.setDBits_eq_model c value hv,
+   GenSrcPwTypes.setSBits_eq_model c value hv, GenSrcPwTypes.getIBits_eq_model c, GenSrcPwTypes.getDBits_eq_model c,
+   GenSrcPwTypes.getSBits_eq_model c, GenSrcPwTypes.setAll_eq_model c value hv, GenSrcPwTypes.cellNew_eq_model⟩
+
+/-- `tb_get_after_set` / `tb_set_preserves_other_fields` / `tb_set_all` **for the translated text**: what a translated
+setter wrote is what the translated getter of that field reads, the other two getters read what they read before, and
+`set_all(value)` makes all three read `value`. -/
+theorem traceback_cell_source_get_after_set (c c' : RbV.Gen.SrcPwTypes.TracebackCell) (value : Nat)
+    (hv : value ≤ RbV.Gen.TbCodes.tbMax) :
+    (RbV.Gen.SrcPwTypes.setIBits c value = .ok c' → RbV.Gen.SrcPwTypes.getIBits c' = .ok value ∧
+      RbV.Gen.SrcPwTypes.getDBits c' = RbV.Gen.SrcPwTypes.getDBits c ∧ RbV.Gen.SrcPwTypes.getSBits c' = RbV.Gen.SrcPwTypes.getSBits c) ∧
+    (RbV.Gen.SrcPwTypes.setDBits c value = .ok c' → RbV.Gen.SrcPwTypes.getDBits c' = .ok value ∧
+      RbV.Gen.SrcPwTypes.getIBits c' = RbV.Gen.SrcPwTypes.getIBits c ∧ RbV.Gen.SrcPwTypes.getSBits c' = RbV.Gen.SrcPwTypes.getSBits c) ∧
+    (RbV.Gen.SrcPwTypes.setSBits c value = .ok c' → RbV.Gen.SrcPwTypes.getSBits c' = .ok value ∧
+      RbV.Gen.SrcPwTypes.getIBits c' = RbV.Gen.SrcPwTypes.getIBits c ∧ RbV.Gen.SrcPwTypes.getDBits c' = RbV.Gen.SrcPwTypes.getDBits c) ∧
+    (RbV.Gen.SrcPwTypes.setAll c value = .ok c' → RbV.Gen.SrcPwTypes.getIBits c' = .ok value ∧
+      RbV.Gen.SrcPwTypes.getDBits c' = .ok value ∧ RbV.Gen.SrcPwTypes.getSBits c' = .ok value) := by
+  have a := GenSrcPwTypes.cell_get_after_set c c' value hv
+  have b := GenSrcPwTypes.cell_set_other c c' value hv
+  exact ⟨fun h => ⟨a.1 h, b.1 h⟩, fun h => ⟨a.2.1 h, b.2.1 h⟩, fun h => ⟨a.2.2 h, b.2.2 h⟩,
+    GenSrcPwTypes.cell_set_all_reads c c' value hv⟩
+
+/-- **`Traceback::init` (translated text) blanks and re-dimensions the matrix on every call**: `(m+1)·(n+1)` start cells
+(all three fields `TB_START`), `rows = m+1`, stride `cols = n+1` — whatever the matrix held before: the result does not
+mention the old state (history independence of the traceback matrix). -/
+theorem traceback_init_source_blank (t : RbV.Gen.SrcPwTypes.Traceback) (m n : Nat) (h : (m + 1) * (n + 1) < 2 ^ 64) :
+    RbV.Gen.SrcPwTypes.tbInit t m n =
+      .ok ⟨m + 1, n + 1, List.replicate ((m + 1) * (n + 1)) GenSrcPwTypes.startCell⟩ ∧
+    RbV.Gen.SrcPwTypes.getSBits GenSrcPwTypes.startCell = .ok RbV.Gen.TbCodes.tbStart ∧
+    RbV.Gen.SrcPwTypes.getIBits GenSrcPwTypes.startCell = .ok RbV.Gen.TbCodes.tbStart ∧
+    RbV.Gen.SrcPwTypes.getDBits GenSrcPwTypes.startCell = .ok RbV.Gen.TbCodes.tbStart := by
+  have hs := GenSrcPwTypes.cell_set_all_reads ⟨0⟩ GenSrcPwTypes.startCell _ GenSrcPwTypes.tbStart_le_max
+    (GenSrcPwTypes.setAll_eq_model ⟨0⟩ _ GenSrcPwTypes.tbStart_le_max)
+  exact ⟨GenSrcPwTypes.tbInit_eq_model t m n h, hs.2.2, hs.1, hs.2.1⟩
+
+/-- **`Traceback::{get, set, get_mut}` (translated text)** on a row-major matrix of `rows · cols` cells (`Shaped`; what
+`init` establishes and `set` keeps): cell `(i, j)` is entry `i * cols + j`; `set` and a write through `get_mut` overwrite
+that entry and nothing else; `with_capacity` and `resize` set the dimensions `(m+1, n+1)`. -/
+theorem traceback_get_set_source_eq_model (t : RbV.Gen.SrcPwTypes.Traceback) (i j : Nat) (v : RbV.Gen.SrcPwTypes.TracebackCell)
+    (hs : GenSrcPwTypes.Shaped t) (hi : i < t.rows) (hj : j < t.cols) :
+    RbV.Gen.SrcPwTypes.tbGet t i j = Rs.idx t.matrix (i * t.cols + j) ∧
+    RbV.Gen.SrcPwTypes.tbGetMut t i j = Rs.idx t.matrix (i * t.cols + j) ∧
+    RbV.Gen.SrcPwTypes.tbSet t i j v = .ok { t with matrix := t.matrix.set (i * t.cols + j) v } ∧
+    RbV.Gen.SrcPwTypes.tbGetMut_put t i j v = .ok { t with matrix := t.matrix.set (i * t.cols + j) v } ∧
+    i * t.cols + j < t.matrix.length :=
+  ⟨GenSrcPwTypes.tbGet_eq_model t i j hs hi hj, GenSrcPwTypes.tbGetMut_eq_model t i j hs hi hj,
+   GenSrcPwTypes.tbSet_eq_model t i j v hs hi hj, GenSrcPwTypes.tbGetMut_put_eq_model t i j v hs hi hj,
+   (GenSrcPwTypes.shaped_idx hs hi hj).1⟩
+
+theorem traceback_resize_source_eq_model (t : RbV.Gen.SrcPwTypes.Traceback) (m n : Nat) (v : RbV.Gen.SrcPwTypes.TracebackCell)
+    (h : (m + 1) * (n + 1) < 2 ^ 64) :
+    RbV.Gen.SrcPwTypes.tbResize t m n v = .ok ⟨m + 1, n + 1, Rs.resize t.matrix ((m + 1) * (n + 1)) v⟩ ∧
+    RbV.Gen.SrcPwTypes.tbWithCapacity m n = .ok ⟨m + 1, n + 1, []⟩ :=
+  ⟨GenSrcPwTypes.tbResize_eq_model t m n v h, GenSrcPwTypes.tbWithCapacity_eq_model m n h⟩
+
+/-- **`Scoring::{xclip, xclip_prefix, xclip_suffix, yclip, yclip_prefix, yclip_suffix}` (translated text)**: a positive
+penalty is refused (panic); otherwise exactly the named clip fields are overwritten. -/
+theorem scoring_builders_source_eq_model (s : RbV.Gen.SrcPwTypes.Scoring) (p : Int) :
+    RbV.Gen.SrcPwTypes.xclip s p = (if p ≤ 0 then .ok { s with xclip_prefix := p, xclip_suffix := p } else .panic) ∧
+    RbV.Gen.SrcPwTypes.xclip_prefix s p = (if p ≤ 0 then .ok { s with xclip_prefix := p } else .panic) ∧
+    RbV.Gen.SrcPwTypes.xclip_suffix s p = (if p ≤ 0 then .ok { s with xclip_suffix := p } else .panic) ∧
+    RbV.Gen.SrcPwTypes.yclip s p = (if p ≤ 0 then .ok { s with yclip_prefix := p, yclip_suffix := p } else .panic) ∧
+    RbV.Gen.SrcPwTypes.yclip_prefix s p = (if p ≤ 0 then .ok { s with yclip_prefix := p } else .panic) ∧
+    RbV.Gen.SrcPwTypes.yclip_suffix s p = (if p ≤ 0 then .ok { s with yclip_suffix := p } else .panic) :=
+  GenSrcPwTypes.scoring_builders_eq_model s p
+
+-- non-vacuity: a cell written field by field through the translated setters reads back through the translated getters
+example : (do
+    let c ← RbV.Gen.SrcPwTypes.cellNew
+    let c ← RbV.Gen.SrcPwTypes.setSBits c RbV.Gen.TbCodes.tbMatch
+    let c ← RbV.Gen.SrcPwTypes.setDBits c RbV.Gen.TbCodes.tbDel
+    let c ← RbV.Gen.SrcPwTypes.setIBits c RbV.Gen.TbCodes.tbYclipSuffix
+    let s ← RbV.Gen.SrcPwTypes.getSBits c
+    let d ← RbV.Gen.SrcPwTypes.getDBits c
+    let i ← RbV.Gen.SrcPwTypes.getIBits c
+    pure (s, d, i)) = Res.ok (RbV.Gen.TbCodes.tbMatch, RbV.Gen.TbCodes.tbDel, RbV.Gen.TbCodes.tbYclipSuffix) := by decide
+-- … a value above TB_MAX is refused by the `assert!`, a matrix of another shape is re-dimensioned by `init`
+example : RbV.Gen.SrcPwTypes.setSBits ⟨0⟩ (RbV.Gen.TbCodes.tbMax + 1) = Res.panic := by decide
+example : RbV.Gen.SrcPwTypes.tbInit ⟨7, 9, [⟨3⟩, ⟨5⟩]⟩ 1 2 =
+    Res.ok ⟨2, 3, List.replicate 6 GenSrcPwTypes.startCell⟩ := by decide
+example : GenSrcPwTypes.Shaped ⟨2, 3, List.replicate 6 GenSrcPwTypes.startCell⟩ := GenSrcPwTypes.shaped_init 1 2 (by decide)
+example : RbV.Gen.SrcPwTypes.xclip ⟨-5, -1, none, -2, -3, -4, -6⟩ (-7) = Res.ok ⟨-5, -1, none, -7, -7, -4, -6⟩ ∧
+    RbV.Gen.SrcPwTypes.yclip_suffix ⟨-5, -1, none, -2, -3, -4, -6⟩ 1 = Res.panic := by decide
+
+/-- **The mode wrappers (translated text) call `custom` with exactly the mode's clip penalties.**  For *every* function
+`custom` (it is a parameter of the translated wrappers): `global` / `semiglobal` / `local` run `custom` once, on the
+aligner whose clip penalties are `MIN_SCORE`×4 / (`MIN_SCORE`, `MIN_SCORE`, 0, 0) / 0×4 and whose other fields are
+untouched; they return its alignment with the mode tag set (semiglobal / local: clip operations filtered), and leave
+the aligner `custom` left with the caller's four clip penalties put back (`GenSrcPwModes.wrapped`). -/
+theorem global_source_eq_custom_with_mode_clips
+    (custom : RbV.Gen.SrcPwTypes.Aligner → List Nat → List Nat → Res (Alignment × RbV.Gen.SrcPwTypes.Aligner))
+    (a : RbV.Gen.SrcPwTypes.Aligner) (x y : List Nat) :
+    RbV.Gen.SrcPwModes.global_ custom a x y = GenSrcPwModes.wrapped custom (fun al => { al with mode := .Global })
+      minScore minScore minScore minScore a x y :=
+  GenSrcPwModes.global_eq_custom_with_mode_clips custom a x y
+
+theorem semiglobal_source_eq_custom_with_mode_clips
+    (custom : RbV.Gen.SrcPwTypes.Aligner → List Nat → List Nat → Res (Alignment × RbV.Gen.SrcPwTypes.Aligner))
+    (a : RbV.Gen.SrcPwTypes.Aligner) (x y : List Nat) :
+    RbV.Gen.SrcPwModes.semiglobal_ custom a x y = GenSrcPwModes.wrapped custom
+      (fun al => Alignment.filterClipOperations { al with mode := .Semiglobal }) minScore minScore 0 0 a x y :=
+  GenSrcPwModes.semiglobal_eq_custom_with_mode_clips custom a x y
+
+theorem local_source_eq_custom_with_mode_clips
+    (custom : RbV.Gen.SrcPwTypes.Aligner → List Nat → List Nat → Res (Alignment × RbV.Gen.SrcPwTypes.Aligner))
+    (a : RbV.Gen.SrcPwTypes.Aligner) (x y : List Nat) :
+    RbV.Gen.SrcPwModes.local_ custom a x y = GenSrcPwModes.wrapped custom
+      (fun al => Alignment.filterClipOperations { al with mode := .Local }) 0 0 0 0 a x y :=
+  GenSrcPwModes.local_eq_custom_with_mode_clips custom a x y
+
+/-- **History independence of the scoring (translated text).**  For every `custom` that does not write `self.scoring`
+(`KeepsScoring`): after `global`, `semiglobal` or `local` the aligner's `scoring` is exactly what it was before the call,
+and every other field is what `custom` left. -/
+theorem mode_wrappers_source_restore_scoring
+    (custom : RbV.Gen.SrcPwTypes.Aligner → List Nat → List Nat → Res (Alignment × RbV.Gen.SrcPwTypes.Aligner))
+    (hk : GenSrcPwModes.KeepsScoring custom) (a a' : RbV.Gen.SrcPwTypes.Aligner) (x y : List Nat) (al : Alignment) :
+    (RbV.Gen.SrcPwModes.global_ custom a x y = .ok (al, a') → a'.scoring = a.scoring) ∧
+    (RbV.Gen.SrcPwModes.semiglobal_ custom a x y = .ok (al, a') → a'.scoring = a.scoring) ∧
+    (RbV.Gen.SrcPwModes.local_ custom a x y = .ok (al, a') → a'.scoring = a.scoring) :=
+  ⟨GenSrcPwModes.global_source_restores_scoring custom hk a x y al a',
+   GenSrcPwModes.semiglobal_source_restores_scoring custom hk a x y al a',
+   GenSrcPwModes.local_source_restores_scoring custom hk a x y al a'⟩
+
+-- non-vacuity: a `custom` that reports the clip penalties it sees (as score and coordinates); the wrappers hand it the
+-- mode's penalties and give the caller's asymmetric penalties back
+def probeCustom (s : RbV.Gen.SrcPwTypes.Aligner) (_x _y : List Nat) : Res (Alignment × RbV.Gen.SrcPwTypes.Aligner) :=
+  .ok ({ (default : Alignment) with score := s.scoring.xclip_prefix + s.scoring.xclip_suffix * 2 + s.scoring.yclip_prefix * 4 +
+    s.scoring.yclip_suffix * 8 }, { s with Lx := [1] })
+def probeAligner : RbV.Gen.SrcPwTypes.Aligner :=
+  ⟨[[], []], [[], []], [[], []], [], [], [], ⟨0, 0, []⟩, ⟨-5, -1, none, -2, -3, -4, -6⟩⟩
+example : GenSrcPwModes.KeepsScoring probeCustom := by
+  intro s x y al s' h; simp only [probeCustom, Res.ok.injEq, Prod.mk.injEq] at h; rw [← h.2]
+example : RbV.Gen.SrcPwModes.semiglobal_ probeCustom probeAligner [1] [2] =
+    .ok ({ (default : Alignment) with score := minScore * 3, mode := .Semiglobal }, { probeAligner with Lx := [1] }) := by decide
+example : RbV.Gen.SrcPwModes.local_ probeCustom probeAligner [1] [2] =
+    .ok ({ (default : Alignment) with score := 0, mode := .Local }, { probeAligner with Lx := [1] }) := by decide
+
+/-- **One cell of the main loop of `Aligner::custom` (translated text) = the checked-`i32` mirror, modulo ties.**
+`RbV.Gen.SrcPwCustom.custom_for5` is the body of `for i in 1..m + 1` as translated from the text; its three tie-breaks are
+parameters (`T`).  On every aligner state whose vectors have the lengths `custom` gives them (`Dims`), for `1 ≤ i ≤ m`,
+`1 ≤ j ≤ n`, `S[curr][i]` reset to `MIN_SCORE` (unless `i = m`) and valid codes `tsL`, `tsU` in the S fields of the cells
+`(i−1, j)`, `(i, j−1)`: the body panics exactly when `stepJT T` is `none` (an `i32` overflow) and otherwise writes exactly that
+row — `S/I/D[curr][i]`, the register `S[curr][m]`, `Sn[i]`, `Ly[i]`, `Lx[j]`, the bit-packed cell `(i, j)` — and nothing else
+(`writeRow`).  `stepJT` is `stepJC` of `Model/PairwiseFillI32.lean` with the tie-breaks as parameters. -/
+theorem cell_update_source_eq_model_mod_ties (w : Nat → Nat → Int) (T : GenSrcPwCustom.Ties)
+    (a : RbV.Gen.SrcPwTypes.Aligner) (x : List Nat) (m n i j q : Nat) (xclip : Int)
+    (tsL tsU : RbV.Model.PairwiseFill.Tb) (hd : GenSrcPwCustom.Dims a m n) (hx : x.length = m) (hi : 1 ≤ i) (him : i ≤ m)
+    (hj : 1 ≤ j) (hjn : j ≤ n) (hreset : i ≠ m → (a.S.getD (j % 2) []).getD i 0 = minScore)
+    (hL : GenSrcPwCustom.SIs a (i - 1) j tsL) (hU : GenSrcPwCustom.SIs a i (j - 1) tsU) :
+    RbV.Gen.SrcPwCustom.custom_for5 w T.iT T.dT T.snT T.sn0T x m n j (j % 2) (1 - j % 2) q xclip a i =
+      GenSrcPwCustom.ofOpt (GenSrcPwCustom.stepJT T (GenSrcPwCustom.scOf w a) (GenSrcPwCustom.clOf a) m n j i (x.getD (i - 1) 0) q
+          xclip (GenSrcPwCustom.rowPrev1 a (1 - j % 2) (i - 1)) (GenSrcPwCustom.rowPrev a (1 - j % 2) i tsU)
+          (GenSrcPwCustom.rowCur a m j (j % 2) (i - 1) tsL)) >>= fun r' =>
+        Res.ok (GenSrcPwCustom.writeRow a m (j % 2) i j r') :=
+  GenSrcPwCustom.cell_update_mod_ties w T a x m n i j q xclip tsL tsU hd hx hi him hj hjn hreset hL hU
+
+/-- … and for tie-breaks that behave like the pinned text (strict `>` at all three sites) the row is **`stepJC`** of the
+checked-`i32` mirror itself.  Stated for an abstract `T` (so that a property-preserving change of a tie-break in the text —
+seeded C01-H1, C01-H2 — does not falsify it; what the text's own tests must satisfy is `tie_breaks_source_admissible`). -/
+theorem cell_update_source_eq_model (w : Nat → Nat → Int) (T : GenSrcPwCustom.Ties) (hT : T = GenSrcPwCustom.pinned)
+    (a : RbV.Gen.SrcPwTypes.Aligner) (x y : List Nat) (i j : Nat) (xclip : Int) (prev : List RbV.Model.PairwiseFill.Row)
+    (r : RbV.Model.PairwiseFill.Row) (hd : GenSrcPwCustom.Dims a x.length y.length) (hi : 1 ≤ i) (him : i ≤ x.length)
+    (hj : 1 ≤ j) (hjn : j ≤ y.length) (hreset : i ≠ x.length → (a.S.getD (j % 2) []).getD i 0 = minScore)
+    (hL : GenSrcPwCustom.SIs a (i - 1) j r.t.ts) (hU : GenSrcPwCustom.SIs a i (j - 1) (prev.getD i default).t.ts)
+    (hr : GenSrcPwCustom.rowCur a x.length j (j % 2) (i - 1) r.t.ts = r)
+    (hp1 : GenSrcPwCustom.rowPrev1 a (1 - j % 2) (i - 1) = prev.getD (i - 1) default)
+    (hp : GenSrcPwCustom.rowPrev a (1 - j % 2) i (prev.getD i default).t.ts = prev.getD i default) :
+    RbV.Gen.SrcPwCustom.custom_for5 w T.iT T.dT T.snT T.sn0T x x.length y.length j (j % 2) (1 - j % 2) (y.getD (j - 1) 0) xclip a i =
+      GenSrcPwCustom.ofOpt (RbV.Model.PairwiseFill.stepJC (GenSrcPwCustom.scOf w a) (GenSrcPwCustom.clOf a) x y j prev xclip i r)
+        >>= fun r' => Res.ok (GenSrcPwCustom.writeRow a x.length (j % 2) i j r') := by
+  subst hT
+  rw [GenSrcPwCustom.cell_update_mod_ties w GenSrcPwCustom.pinned a x x.length y.length i j (y.getD (j - 1) 0) xclip r.t.ts
+    (prev.getD i default).t.ts hd rfl hi him hj hjn hreset hL hU, hr, hp1, hp, GenSrcPwCustom.stepJT_pinned]
+
+/-- **The tie-breaks found in the text are admissible** (true when strictly greater, false when strictly smaller — `>` or
+`>=` in either operand order); a test that is neither (e.g. `<`, or another operand) fails here. -/
+theorem tie_breaks_source_admissible : GenSrcPwCustom.TiesOk GenSrcPwCustom.srcTies := GenSrcPwCustom.srcTies_ok
+
+/-- what the written cell reads back: the three 4-bit fields of `cellOf ts ti td` are the codes of the three moves -/
+theorem cell_update_source_cell_reads (ts ti td : RbV.Model.PairwiseFill.Tb) :
+    RbV.TbCell.getBits (GenSrcPwCustom.cellOf ts ti td).v RbV.Gen.TbCodes.sPos = GenSrcPwCustom.enc ts ∧
+    RbV.TbCell.getBits (GenSrcPwCustom.cellOf ts ti td).v RbV.Gen.TbCodes.iPos = GenSrcPwCustom.enc ti ∧
+    RbV.TbCell.getBits (GenSrcPwCustom.cellOf ts ti td).v RbV.Gen.TbCodes.dPos = GenSrcPwCustom.enc td :=
+  GenSrcPwCustom.cellOf_reads ts ti td
+
+-- non-vacuity / sampled tie of the *whole* translated function: the text of `Aligner::custom` (`Gen/SrcPwCustom.lean`),
+-- run by the kernel on a fresh aligner, returns exactly what the checked-`i32` mirror `customC` returns
+def srcAligner (go ge xp xs yp ys : Int) : RbV.Gen.SrcPwTypes.Aligner :=
+  ⟨[[], []], [[], []], [[], []], [], [], [], ⟨0, 0, []⟩, ⟨go, ge, none, xp, xs, yp, ys⟩⟩
+def srcOp : AlignmentOperation → AOp
+  | .Match => .core .mat | .Subst => .core .sub | .Ins => .core .ins | .Del => .core .del
+  | .Xclip n => .xclip n | .Yclip n => .yclip n
+def srcRun (w : Nat → Nat → Int) (go ge xp xs yp ys : Int) (x y : List Nat) : RbV.Model.PairwiseFill.Outcome :=
+  match RbV.Gen.SrcPwCustom.custom w RbV.Gen.SrcPwCustom.custom_iTie RbV.Gen.SrcPwCustom.custom_dTie
+      RbV.Gen.SrcPwCustom.custom_snTie RbV.Gen.SrcPwCustom.custom_sn0Tie (srcAligner go ge xp xs yp ys) x y (2 * (x.length + y.length) + 16) with
+  | .ok (al, _) => .done ⟨al.score, al.xstart, al.xend, al.ystart, al.yend, al.xlen, al.ylen, al.operations.map srcOp⟩
+  | .panic => .overflow
+  | .fuel => .noTermination
+example : srcRun scU.w (-5) (-1) (-1) (-2) (-3) (-1) [0, 1, 1, 0] [1, 1, 2] =
+    RbV.Model.PairwiseFill.customC scU ⟨-1, -2, -3, -1⟩ [0, 1, 1, 0] [1, 1, 2] := by decide +kernel
+example : srcRun scU.w (-5) (-1) minScore minScore 0 0 [1, 1] [0, 1, 1, 0] =
+    RbV.Model.PairwiseFill.customC scU clSemi [1, 1] [0, 1, 1, 0] := by decide +kernel
+example : srcRun scU.w (-5) (-1) minScore minScore minScore minScore [] [0] =
+    RbV.Model.PairwiseFill.customC scU clGlobal [] [0] := by decide +kernel
+-- an `i32` overflow of the text is the `overflow` of the mirror
+example : srcRun (fun _ _ => 2000000000) (-5) (-1) 0 0 0 0 [0, 0] [0, 0] = .overflow ∧
+    RbV.Model.PairwiseFill.customC ⟨fun _ _ => 2000000000, -5, -1⟩ clLocal [0, 0] [0, 0] = .overflow := by decide +kernel
+
+end SourceText
+
 
 end RbV.Thm.C01
